@@ -192,6 +192,37 @@ Section Final.
     - intros x Hx. apply unperm_perm; lia.
   Qed.
 
+  (* the property's headline: the whole-list routines against the SPECIFICATION's per-index function
+     (needs the spec's own size limit and a hash that returns bytes) *)
+  Theorem unshuffle_list_is_spec rounds (l : list A) : let n := N.of_nat (length l) in
+    (forall m, bytes_ok (H m)) -> rounds <= 255 -> n <= spec_limit ->
+    exists l', unshuffle_list H seed rounds l = Ok l' /\ length l' = length l /\
+      forall i, i < n -> exists j, compute_shuffled_index H seed rounds i n = Some j /\ j < n /\
+                                   nth_error l' (N.to_nat i) = nth_error l (N.to_nat j).
+  Proof.
+    intros n Hb HR Hlim.
+    assert (Hmax : n < max_size) by (unfold spec_limit, max_size in *; lia).
+    destruct (unshuffle_list_spec rounds l HR Hmax) as (l' & E & L & G).
+    exists l'. split; [exact E|]. split; [exact L|]. intros i Hi.
+    destruct (G i Hi) as (j & Ej & Hj & Gj).
+    destruct (permute_index_is_spec H seed Hb rounds i n HR ltac:(lia) Hlim Hi) as (j' & Ej' & Sj' & _).
+    fold n in Ej. rewrite Ej in Ej'. injection Ej' as <-. exists j. auto.
+  Qed.
+  Theorem shuffle_list_is_spec rounds (l : list A) : let n := N.of_nat (length l) in
+    (forall m, bytes_ok (H m)) -> rounds <= 255 -> n <= spec_limit ->
+    exists l', shuffle_list H seed rounds l = Ok l' /\ length l' = length l /\
+      forall i, i < n -> exists j, compute_shuffled_index H seed rounds i n = Some j /\ j < n /\
+                                   nth_error l' (N.to_nat j) = nth_error l (N.to_nat i).
+  Proof.
+    intros n Hb HR Hlim.
+    assert (Hmax : n < max_size) by (unfold spec_limit, max_size in *; lia).
+    destruct (shuffle_list_spec rounds l HR Hmax) as (l' & E & L & G & _).
+    exists l'. split; [exact E|]. split; [exact L|]. intros i Hi.
+    destruct (G i Hi) as (j & Ej & Hj & Gj).
+    destruct (permute_index_is_spec H seed Hb rounds i n HR ltac:(lia) Hlim Hi) as (j' & Ej' & Sj' & _).
+    fold n in Ej. rewrite Ej in Ej'. injection Ej' as <-. exists j. auto.
+  Qed.
+
   (* trivial shapes: the early return of the Go code *)
   Lemma shuffle_list_trivial rounds (l : list A) dir :
     (length l <= 1)%nat \/ rounds = 0 -> inner_shuffle_list H seed rounds l dir = Ok l.
